@@ -151,6 +151,16 @@ CLAIMED = {
             "Trusted: TLC, independent encoder's per-field byte swapping. DAQmx scalers under both byte orders are "
             "exercised by C11's check.",
             "DESIGN.md 3.3, 5/C15"),
+    "C20": ("TLA+ TdmsLifecycle: descriptor table and API object state over source x index situation x fault stage; TLC "
+            "checks NoLibraryFd / OnlyDataWhileLazy / ReadAfterCloseRaises on all behaviours; every behaviour replayed "
+            "with an input built for its fault while /proc/self/fd and caller streams are inspected after each step",
+            "Exhaustive model checking of the lifecycle state machine (read, read_metadata, open, data read, close, "
+            "with-exit, repeated close, read after close, writer with-block with normal and raising body) plus "
+            "spec->code conformance of every behaviour: which descriptors on the scratch .tdms/.tdms_index files are "
+            "open after each step, which calls raise, caller streams (BytesIO and real files) never closed.",
+            "Trusted: TLC, /proc/self/fd as the descriptor table, encoder-built malformed inputs. A raising "
+            "TdmsFile.open(path) is outside the statement and only observed.",
+            "DESIGN.md 3.12, 5/C20"),
 }
 
 PENDING = {}
